@@ -9,6 +9,7 @@ mod explore;
 mod mats;
 mod real;
 mod scen;
+mod vecs;
 
 use std::io::Write;
 use std::sync::{Arc, Mutex};
